@@ -123,10 +123,36 @@ def gen_build_history(rng, latlon, mag, sqlite_features=True, queries=("nodes", 
         ops.append({"op": "add_node", "label": labels[i], "loc": list(pts[i]), "ignore_doubles": True})
     if any(o.get("no_index") for o in ops if o["op"] in ("add_edge", "add_edges")) and rng.random() < 0.9:
         ops.append({"op": "reindex_edges"})
+    ri = [k for k, o in enumerate(ops) if o["op"] == "reindex_nodes"]
+    if ri and rng.random() < 0.35:
+        # the deferred node index is built only after the roads (and their index): the two re-index calls are
+        # independent of each other, whatever their order the map must end up completely indexed
+        ops.append(ops.pop(ri[0]))
+        if any(o.get("no_index") for o in ops if o["op"] in ("add_edge", "add_edges")) and ops[-2]["op"] != "reindex_edges" \
+                and rng.random() < 0.5:
+            ops.insert(len(ops) - 1, {"op": "reindex_edges"})
     if sqlite_features and rng.random() < safe_commit_p:
         ops.append({"op": "commit"})
     if sqlite_features and rng.random() < 0.15:
         ops.append({"op": "connect_parallelroads", "dist": rng.choice([0.5, 2.0, 10.0])})
+    if rng.random() < 0.15:
+        # a rejected call: a road to a node that does not exist yet (the in-memory map refuses it with an exception and
+        # must be left as it was); the node is declared later and gets roads of its own, but never this one
+        first_edge = next((k for k, o in enumerate(ops) if o["op"] in ("add_edge", "add_edges")), len(ops))
+        late = max(labels) + 1 + rng.randrange(5)
+        src = rng.randrange(n)
+        q = rng.choice(pts)
+        lp = (round(q[0] + (1e-4 if latlon else 0.5) * rng.uniform(-1, 1), 7), round(q[1] + (1e-4 if latlon else 0.5) * rng.uniform(-1, 1), 7))
+        pos = rng.randint(first_edge, len(ops))
+        ops.insert(pos, {"op": "reject_edge", "a": labels[src], "b": late})
+        pos = rng.randint(pos + 1, len(ops))
+        ops.insert(pos, {"op": "add_node", "label": late, "loc": list(lp)})
+        for j in rng.sample(range(n), min(n, rng.randint(1, 2))):
+            ops.insert(pos + 1, {"op": "add_edge", "a": late, "b": labels[j]})
+            if j != src and rng.random() < 0.5:
+                ops.insert(pos + 1, {"op": "add_edge", "a": labels[j], "b": late})
+        labels = labels + [late]
+        pts = pts + [lp]
     # interleave queries / restarts at random positions after at least one node exists
     extra = []
     nq = rng.randint(2, 6)
@@ -369,6 +395,15 @@ class StoreSession:
             if not op.get("no_commit"):
                 ref.commit()
             self.mutations += 1
+        elif k == "reject_edge":
+            a, b = op["a"], op["b"]
+            if im is not None and a in self.im_ref.loc and b not in self.im_ref.loc:
+                try:
+                    im.add_edge(a, b)
+                except Exception:
+                    self.bump("probe_rejected_add_edge")      # refused: nothing of it may remain
+                else:
+                    self.im_ref.nbrs[a].append(b)             # accepted as a dangling entry (like graph=...)
         elif k == "self_nbr":
             a = op["a"]
             if im is not None and a in self.im_ref.loc and a not in self.im_ref.nbrs[a]:
@@ -1049,12 +1084,13 @@ def eval_C18(doc):
                 plant_stale(scratch, doc, bump)
                 m = InMemMap("store", use_latlon=latlon, use_rtree=False, index_edges=False, dir=scratch,
                              linked_edges=linked, **kw)
-                nodes, edges = {}, []
+                nodes, edges, dangling = {}, [], []
                 for i, op in enumerate(doc["ops"]):
                     k = op["op"]
                     if k == "add_node":
                         m.add_node(op["label"], tuple(op["loc"]))
                         nodes.setdefault(op["label"], tuple(op["loc"]))
+                        edges.extend(e for e in dangling if e[1] == op["label"] and e not in edges)
                         mutations += 1
                     elif k == "add_edge":
                         if op["a"] in nodes and op["b"] in nodes:
@@ -1062,8 +1098,16 @@ def eval_C18(doc):
                             if (op["a"], op["b"]) not in edges:
                                 edges.append((op["a"], op["b"]))
                             mutations += 1
+                    elif k == "reject_edge":
+                        if op["a"] in nodes and op["b"] not in nodes:
+                            try:
+                                m.add_edge(op["a"], op["b"])
+                            except Exception:
+                                bump("probe_rejected_add_edge")
+                            else:
+                                dangling.append((op["a"], op["b"]))
                     elif k == "reopen" and nodes:
-                        if linked and any(x not in nodes for e in linked for x in e):
+                        if linked and any(x not in nodes for e, fs in linked.items() for g in [e] + list(fs) for x in g):
                             continue
                         before = battery(m, doc, sorted(nodes), list(edges), None)
                         m.dump()
